@@ -973,6 +973,20 @@ func (h *c17Hist) opProof() error {
 	if success && !legit {
 		h.finding("C01/postproof/success-without-valid-proof/"+kind, fmt.Sprintf("PostProof answered Success for a payload (%s) that is not a valid proof of the challenged chunk", kind))
 	}
+	// frame: a proof concerns one (prover, file) pair — the record of any other pair (another file with the same
+	// merkle root, another prover) is refreshed only by a proof for THAT pair's own challenge
+	{
+		own := string(storagetypes.ProofKey(creator, msg.Merkle, msg.Owner, msg.Start))
+		pa, pb := c17ProofsOf(pre), c17ProofsOf(post)
+		for key, v := range pb {
+			if w, ok := pa[key]; key != own && (!ok || w != v) {
+				h.trace = append(h.trace, map[string]interface{}{"op": "PostProof", "msg": msg, "payload": kind, "height": e.Height})
+				h.finding("C01/postproof/effect-on-another-record", fmt.Sprintf("a PostProof for one (prover, file) pair created or refreshed the proof record %q of another pair, whose own challenge was not answered", key))
+				h.trace = h.trace[:len(h.trace)-1]
+				break
+			}
+		}
+	}
 	if !success && changed {
 		h.finding("C01/postproof/refused-but-wrote", "PostProof answered Success=false (or failed) and still changed a prover list or a proof record")
 	}
